@@ -42,6 +42,9 @@ type vC02BCase struct {
 	SlackMs int   `json:"slack_ms,omitempty"`
 	K       int   `json:"k,omitempty"`
 	UnpinAt []int `json:"unpin_at,omitempty"`
+	// never generated; only from a given input (a probe): 1-based indices of the element queries of the crdt set
+	// (issued by set.Rmv and InSet) that fail. The model has no such failure: the case is reported only if the code panics.
+	FailQuery []int `json:"fail_query,omitempty"`
 }
 
 const vc02TakeTimeout = 6 * time.Second // positive expectation: the worker takes an accepted item (normally microseconds)
@@ -352,6 +355,14 @@ func vC02BRun(t *testing.T, c vC02BCase) (obs vC02BObs, ranks *vc02Ranks) {
 	age := time.Duration(c.AgeMs) * time.Millisecond
 	p := newVC02Peer(t, c.Size, age, c.Qcap, c.Fail, true, nil)
 	defer p.shutdown()
+	if len(c.FailQuery) > 0 {
+		p.fds.mu.Lock()
+		p.fds.failQ = map[int]bool{}
+		for _, i := range c.FailQuery {
+			p.fds.failQ[i] = true
+		}
+		p.fds.mu.Unlock()
+	}
 	batching := p.g != nil
 	ctx := context.Background()
 	t0 := time.Now()
@@ -470,6 +481,14 @@ func vC02BRun(t *testing.T, c vC02BCase) (obs vC02BObs, ranks *vc02Ranks) {
 				if !settle() {
 					markStuck()
 				}
+			}
+		case "wait": // never generated (probe inputs): let the age timer of an empty batch expire; bounded
+			if batching && age < time.Minute {
+				d := 3 * age
+				if d > 500*time.Millisecond {
+					d = 500 * time.Millisecond
+				}
+				time.Sleep(d)
 			}
 		case "age":
 			if batching && age < time.Minute {
@@ -848,7 +867,7 @@ func TestVerifC02Batch(t *testing.T) {
 			var c vC02BCase
 			var k string
 			switch {
-			case i%24 == 5:
+			case i%24 == 5 && i/24 < 48: // at most 48 per run: each takes 2-3 s of wall clock
 				c, k = vC02BTrickle(r), "trickle"
 			case i%4 == 3:
 				c, k = vC02BBoundary(i/4 + int(seed))
